@@ -7,6 +7,7 @@ import Orx.GenThms.Arr
 import Orx.GenThms.Range
 import Orx.GenThms.Iter
 import Orx.GenThms.Ctor
+import Orx.GenThms.Defaults
 /-! # C11 try_get_len / has_more are truthful; 'No' is definitive -/
 namespace Orx.Props.C11
 open Orx Orx.KS
@@ -94,5 +95,22 @@ theorem source_iter_new_records_exact_hints (lo : Nat) (hi : Option Nat) (s : St
     · subst e; simp [claimedLen]
     · have : ¬ u = lo := fun h => e h.symm
       simp [claimedLen, e, this]
+
+
+open Orx.RS Orx.Gen Orx.GenThms in
+/-- **`has_more` as in the source** (the trait's default method over each kind's `try_get_len`): for a known-size kind one
+`Acquire` load `c` and `Yes(len - c)` while `c < len`, `No` from then on, never `Maybe`; for the wrapper `No` once `completed`
+is set, otherwise `Yes | No` from the claimed exact length and the reserved counter, `Maybe` only when no exact length was
+claimed -/
+theorem source_has_more (len a b c : Nat) (evs dr) (init : Option Nat) (R Y : Nat) (C : Bool) (ievs : List Ev) :
+    Slice.has_more (slice len) (st c evs dr) = .ok (KS.hasMoreOf (KS.lenOf len c)) (st c (evs ++ [.ld (.ctr 0) .acquire c]) dr) ∧
+    Vec.has_more (vec len) (st c evs dr) = .ok (KS.hasMoreOf (KS.lenOf len c)) (st c (evs ++ [.ld (.ctr 0) .acquire c]) dr) ∧
+    Arr.has_more len (arr len) (st c evs dr) = .ok (KS.hasMoreOf (KS.lenOf len c)) (st c (evs ++ [.ld (.ctr 0) .acquire c]) dr) ∧
+    Range.has_more (range a b) (st c evs dr) = .ok (KS.hasMoreOf (KS.lenOf (b - a) c)) (st c (evs ++ [.ld (.ctr 0) .acquire c]) dr) ∧
+    Iter.has_more (iter init) (ist R Y C ievs) =
+      .ok (IWF.moreOf (IWF.lenOut init C R))
+        (ist R Y C (ievs ++ [.ld .C .seqcst (if C then 1 else 0)] ++ (if C = false ∧ init.isSome then [.ld .R .acquire R] else []))) :=
+  ⟨slice_has_more len c evs dr, vec_has_more len c evs dr, arr_has_more len c evs dr, range_has_more a b c evs dr,
+   iter_has_more init R Y C ievs⟩
 
 end Orx.Props.C11
